@@ -298,6 +298,7 @@ class CLw(RiscvcInstruction):
     syntax = Syntax(["c", ".", "lw", " ", rd, ",", " ", offset, "(", rs1, ")"])
 
     def encode(self):
+        assert self.offset in range(0, 128, 4)
         tokens = self.get_tokens()
         tokens[0][0:2] = 0b00
         tokens[0][2:5] = self.rd.num - 8
@@ -319,6 +320,7 @@ class CSw(RiscvcInstruction):
     tokens = [RiscvcToken]
 
     def encode(self):
+        assert self.offset in range(0, 128, 4)
         tokens = self.get_tokens()
         tokens[0].op = 0b00
         tokens[0][2:5] = self.rs2.num - 8
@@ -337,6 +339,7 @@ class CLwsp(RiscvcInstruction):
     syntax = Syntax(["c", ".", "lwsp", " ", rd, ",", offset, "(", "x2", ")"])
 
     def encode(self):
+        assert self.offset in range(0, 256, 4)
         tokens = self.get_tokens()
         tokens[0][0:2] = 0b10
         tokens[0][2:4] = self.offset >> 6 & 3
@@ -353,6 +356,8 @@ class CAddi4spn(RiscvcInstruction):
     syntax = Syntax(["c", ".", "addi4spn", " ", rd, " ", imm])
 
     def encode(self):
+        assert self.imm in range(4, 1024, 4)
+        assert self.rd.num in range(8, 16)
         tokens = self.get_tokens()
         tokens[0][0:2] = 0b00
         tokens[0][2:5] = self.rd.num - 8
@@ -369,6 +374,7 @@ class CAddi16sp(RiscvcInstruction):
     syntax = Syntax(["c", ".", "addi16sp", " ", imm])
 
     def encode(self):
+        assert self.imm in range(-512, 512, 16) and self.imm != 0
         tokens = self.get_tokens()
         tokens[0][0:2] = 0b01
         tokens[0][2:3] = self.imm >> 5 & 1
@@ -388,6 +394,7 @@ class CSwsp(RiscvcInstruction):
     syntax = Syntax(["c", ".", "swsp", " ", rs2, ",", offset, "(", "x2", ")"])
 
     def encode(self):
+        assert self.offset in range(0, 256, 4)
         tokens = self.get_tokens()
         tokens[0].op = 0b10
         tokens[0][2:7] = self.rs2.num
@@ -555,10 +562,10 @@ class Lwv(PseudoRiscvInstruction):
         if (
             self.rd.num in range(8, 16)
             and self.rs1.num in range(8, 16)
-            and self.offset in range(128)
+            and self.offset in range(0, 128, 4)
         ):
             yield CLw(self.rd, self.offset, self.rs1)
-        elif self.rs1.num == 2 and self.offset >= 0 and self.offset < 256:
+        elif self.rs1.num == 2 and self.offset in range(0, 256, 4):
             yield CLwsp(self.rd, self.offset, self.rs1)
         else:
             yield Lw(self.rd, self.offset, self.rs1)
@@ -579,9 +586,10 @@ class Swv(PseudoRiscvInstruction):
             and (self.rs1.num >= 8)
             and (self.offset >= 0)
             and (self.offset < 128)
+            and (self.offset % 4 == 0)
         ):
             yield CSw(self.rs2, self.offset, self.rs1)
-        elif self.rs1.num == 2 and self.offset >= 0 and self.offset < 256:
+        elif self.rs1.num == 2 and self.offset in range(0, 256, 4):
             yield CSwsp(self.rs2, self.offset, self.rs1)
         else:
             yield Sw(self.rs2, self.offset, self.rs1)
